@@ -982,7 +982,10 @@ class ManifestRecursiveLoader:
                             raise ManifestIncompatibleEntry(
                                 out[fullpath][1], e, diff)
                         # otherwise, make sure we have all checksums
-                        out[fullpath][1].checksums.update(e.checksums)
+                        # (IGNORE entries have none)
+                        if e.tag != 'IGNORE':
+                            out[fullpath][1].checksums.update(
+                                e.checksums)
                         # and drop the duplicate
                         entries_to_remove.append(e)
                     else:
